@@ -326,6 +326,8 @@ func runC12(rc *RunCtx) {
 		}
 		shots = append(shots, &shot{tag: fmt.Sprintf("x%d", i), req: r, target: m, desc: fmt.Sprintf("%s ns=%q path=%q tok=%d", op, nsHeader, full, tp.Pos()%3)})
 	}
+	s.SwarmFreeze()
+	rc.Cfg("sched", fmt.Sprintf("stall=%d yield_on_release=%v", s.FreezePermille, s.YieldOnRelease))
 	s.SetControlled()
 	group := 1 + tp.Pick(3)
 	for i := 0; i < len(shots); i += group {
